@@ -499,6 +499,50 @@ def tracker_removals(ctx):
     return out
 
 
+
+@rule('GC3b', ['C06'], floor=1, template='liveness')
+def gc3b(ctx):
+    """Across the unlink loop the GC frame holds ONE file handle: the clone of the writer's current file (GC3's guard).
+    Any other value of a type that contains a `FileNumber` (a clone of the first file kept "for a log line", an
+    `Option<FileNumber>` filled under a debug level) that is built before the unlinks and still alive after them is a
+    reference count on a file the pass is there to reclaim: `take_first_unused` refuses it and nothing is ever
+    collected -- under the configuration that enables it only."""
+    n = 0
+    for (b, u) in gc_frames(ctx):
+        n += 1
+        fl = flow_of(b)
+        # the legitimate guard: clones whose argument comes from a call returning the writer's current file
+        legit = set()
+        for c in b.calls:
+            if c.name == '<%s as std::clone::Clone>::clone' % FN and c.dest_local() is not None:
+                back = fl.backward(set(fl.op_nodes(c.args[0])))
+                if any(c2.path.endswith('current_file') and any(x in back for x in fl.call_result_nodes(c2)) for c2 in b.calls):
+                    legit.add(c.dest_local())
+        bad = []
+        for l in range(b.arg_count + 1, len(b.j['locals'])):
+            ty = b.local_ty(l)
+            if FN not in ty or ty.startswith('&') or l in legit or 'FileTracker' in ty or 'Directory' in ty or 'RollingWriter' in ty or 'RecordWriter' in ty:
+                continue
+            dpts = [p for (p, _k, _d) in b.defs.get(l, [])]
+            if not any(u.point in b.reach_after(p) for p in dpts):
+                continue
+            # still alive after the unlinks: dropped / read after them
+            after = b.reach_after(u.point)
+            alive = False
+            for bi, blk in enumerate(b.blocks):
+                if not b.live[bi]:
+                    continue
+                t = blk['term']
+                if t['k'] == 'drop' and t['place']['l'] == l and b.pterm[bi] in after:
+                    alive = True
+            if alive:
+                bad.append('_%d: %s (%s)' % (l, ty.split('::')[-1] if '<' not in ty else ty, b.loc(dpts[0]) if dpts else '?'))
+        ctx.check(not bad, '%s:only-the-guard-lives-across-gc' % b.path, where(b, u.point), 'no file handle other than the current-file guard is alive across the unlink loop',
+                  'a value holding a FileNumber other than the current-file guard is alive across the unlink loop (%s): it counts as a reference to a file the pass is there to reclaim, which is then never collected' % '; '.join(bad))
+    if n == 0:
+        ctx.missing('frame', 'no GC frame found')
+
+
 @rule('GC4', ['C01', 'C02', 'C03', 'C06'], floor=1, template='guard-dominates-use')
 def gc4(ctx):
     """Only an unreferenced oldest file is popped, and never the last one."""
